@@ -9,7 +9,11 @@ from harness import lib, gen, differ_corr, oracles
 F_SETS = [{'F': 0.1}, {'F': 0.5}, {'F': 0.71, 'fast_match': True}, {'F': 0.9, 'fast_match': True}, {'F': 1.0},
           {'F': 1.0, 'best_match': True}, {'F': 0.3, 'ratio_mode': 'accurate', 'fast_match': True}]
 UNIQ_SETS = [{'uniqueattrs': ['i', 'j']}, {'uniqueattrs': ['i', ('a', 'j'), 'k'], 'best_match': True},
-             {'uniqueattrs': [], 'fast_match': True}, {'uniqueattrs': [('b', 'i')]}]
+             {'uniqueattrs': [], 'fast_match': True}, {'uniqueattrs': [('b', 'i')]},
+             # several (tag, attr) pairs for ONE tag, pairs for several tags, list-form pairs
+             {'uniqueattrs': [('a', 'i'), ('a', 'j')]}, {'uniqueattrs': [('a', 'j'), ('a', 'i'), ('b', 'i')], 'fast_match': True},
+             {'uniqueattrs': [['a', 'i'], ['a', 'k'], 'j'], 'best_match': True}]
+XMLID = '{http://www.w3.org/XML/1998/namespace}id'
 IGN_SETS = [{'ignored_attrs': ['i'], 'uniqueattrs': [('a', 'i'), ('b', 'i'), 'j']}, {'ignored_attrs': ['i']}, {'ignored_attrs': ['i', 'j'], 'fast_match': True},
             {'ignored_attrs': ['i'], 'uniqueattrs': ['i', 'j']}, {'ignored_attrs': ['k', '{urn:p}i'], 'best_match': True}]
 
@@ -107,7 +111,7 @@ def default_inputs(run, rng, focus):
             opts = rng.choice([{}, {'uniqueattrs': ['i']}, {'uniqueattrs': ['id'], 'fast_match': True}, {'best_match': True},
                                {'uniqueattrs': [('a', '{urn:p}i')]}, {'ignored_attrs': ['j']}, {'ignored_attrs': ['i']}, {'ignored_attrs': ['id'], 'fast_match': True}])
         elif kw:
-            opts = rng.choice(UNIQ_SETS[:2] + [{'uniqueattrs': ['j', 'i'], 'fast_match': True}, {'uniqueattrs': [('a', 'i'), 'k']}])
+            opts = rng.choice(UNIQ_SETS[:2] + UNIQ_SETS[4:] + [{'uniqueattrs': ['j', 'i'], 'fast_match': True}, {'uniqueattrs': [('a', 'i'), 'k']}])
         if rng.random() < .08:
             opts = dict(opts, _embed=True)     # the trees are handed over as sub-elements of larger documents
         if focus == "C03" and rng.random() < .6:
@@ -128,6 +132,10 @@ def default_inputs(run, rng, focus):
             # the right document spells the prefix of urn:p differently (same URI, other prefix)
             rx = rx.replace('xmlns:p=', 'xmlns:pp=').replace('<p:', '<pp:').replace('</p:', '</pp:').replace(' p:', ' pp:')
         inputs.append((xml(L), rx, opts))
+    # duplicate content: identical leaves / subtrees in several places, wrappers dropped / unwrapped / moved / copied
+    for i in range(120 if quick else 1500):
+        L, R = gen.gen_dup_pair(rng)
+        inputs.append((xml(L), xml(R), rng.choice([{}, {}, {'fast_match': True}, {'best_match': True}, {'F': 0.9}])))
     # wide documents: one parent with many children, reversed / shuffled / rotated (long alignments)
     if focus in ("C01", "C04", "C05", "C17"):
         # small permutations of same-tag siblings with children of their own (paths through shifting indices)
@@ -141,6 +149,24 @@ def default_inputs(run, rng, focus):
                 ks2 = list(reversed(ks)) if kind == "reversed" else rng.sample(ks, n)
                 mk = lambda order: "<r>" + "".join('<c k="%d">t%d</c>' % (i, i) for i in order) + "</r>"
                 inputs.append((mk(ks), mk(ks2), {'uniqueattrs': ['k']}))
+    # attribute renames / moves of values on matched nodes under a non-empty ignore list (with and without the ignored
+    # attribute occurring in the documents)
+    for a, b in ATTR_RENAME_STREAM:
+        for o in ({'ignored_attrs': ['i']}, {'ignored_attrs': ['zz']}, {'ignored_attrs': ['i', '{urn:p}i'], 'fast_match': True}, {}):
+            inputs.append((a, b, o))
+    # the two roots bind ONE prefix to DIFFERENT URIs (Differ.diff refuses: RuntimeError, tolerated as documented);
+    # if a script is handed out all the same it must be a correct one
+    if focus in ("C01", "C04", "C05"):
+        for a, b in REBOUND_STREAM:
+            inputs.append((a, b, {}))
+    # default uniqueattrs (xml:id) AFTER Differs that were configured to ignore xml:id / with other unique attributes:
+    # options of one Differ must not leak into the defaults of the next
+    if focus in ("C07", "C13", "C03"):
+        inputs.append(('<r><a xml:id="n1">t</a></r>', '<r><a xml:id="n2">t</a></r>', {'ignored_attrs': [XMLID]}))
+        inputs.append(('<r><a xml:id="n1">t</a></r>', '<r><a xml:id="n2">t</a></r>', {'ignored_attrs': [XMLID], 'uniqueattrs': [XMLID, 'i']}))
+        for a, b in XMLID_STREAM:
+            for o in ({}, {'fast_match': True}, {'best_match': True}):
+                inputs.append((a, b, o))
     # labelled stream of inputs that fall under recorded (open) known findings
     if focus in ("C01", "C04", "C05"):
         for a, b in KNOWN_STREAM:
@@ -168,6 +194,12 @@ def default_inputs(run, rng, focus):
         for a in gen.all_trees(4 if quick else 5):
             for o in gen.OPTION_SETS[:3] + F_SETS:
                 inputs.append((a, a, o)); exh += 1
+        # the converse on an exhaustive scope: every pair of DIFFERENT small documents gets a non-empty script
+        sm = gen.all_trees(3 if quick else 4)
+        for a in sm:
+            for b in sm:
+                if a != b:
+                    inputs.append((a, b, {})); exh += 1
     elif focus == "C07":
         for a in gen.all_trees(3):
             for b in gen.all_trees(3):
@@ -204,6 +236,27 @@ def finding_key(desc, prop, msg):
     except Exception:  # noqa
         pass
     return None
+
+
+ATTR_RENAME_STREAM = [
+    ('<r><a i="1" j="5" x="9">t</a></r>', '<r><a i="2" k="5" x="9">t</a></r>'),
+    ('<r><a j="5" x="9">t</a><b i="3" j="7"/></r>', '<r><a k="5" x="8">t</a><b i="4" k="7" j="1"/></r>'),
+    ('<r><a i="1" j="5" k="5">t</a></r>', '<r><a i="1" m="5" n="5">t</a></r>'),
+    ('<r xmlns:p="urn:p"><a p:i="1" j="5">t</a></r>', '<r xmlns:p="urn:p"><a p:i="2" p:k="5" i="5">t</a></r>'),
+]
+REBOUND_STREAM = [
+    ('<r xmlns:a="urn:1"><a:x>t</a:x><k/></r>', '<r xmlns:a="urn:2"><a:x>t</a:x><k/><a:y/></r>'),
+    ('<r xmlns:a="urn:1"><a:x>t</a:x><k/></r>', '<r xmlns:a="urn:2"><k/><a:y>u</a:y></r>'),
+    ('<r xmlns:a="urn:1"><a:x i="1"><a:z/></a:x></r>', '<r xmlns:a="urn:2"><a:x i="2"><a:z>t</a:z></a:x></r>'),
+    ('<r xmlns:a="urn:1" xmlns:b="urn:2"><a:x>t</a:x><b:y/></r>', '<r xmlns:a="urn:2" xmlns:b="urn:1"><b:x>t2</b:x><a:y k="1"/></r>'),
+]
+XMLID_STREAM = [
+    ('<r><s xml:id="s1"><t>One</t><p>alpha</p></s><s xml:id="s2"><t>Two</t><p>beta</p></s></r>',
+     '<r><s xml:id="s2"><t>Two</t><p>beta!</p></s><s xml:id="s1"><t>One</t><p>alpha!</p></s></r>'),
+    ('<r><a xml:id="n1">same text</a><a xml:id="n2">same text</a></r>', '<r><a xml:id="n2">same text</a><a xml:id="n1">same text</a></r>'),
+    ('<r><a xml:id="n1">t</a></r>', '<r><a xml:id="n2">t</a></r>'),
+    ('<r><b><a xml:id="n1" i="1">t</a></b><a xml:id="n3">t</a></r>', '<r><b><a xml:id="n3" i="1">t</a></b><a xml:id="n1">t</a></r>'),
+]
 
 
 KNOWN_STREAM = [
@@ -258,11 +311,39 @@ def evaluate(built, focus):
                 found.append(("C03", "empty script for different documents"))
             if ign and same_ign and len(raw) > len(nsact):
                 found.append(("C13", "documents differ only in ignored attributes but the script is %r" % (raw,)))
+            # the public entry point (main.diff_trees: one diff() call, no separate match()) must hand out the same
+            # script as the stepped Differ the correspondence observes; if it does not, the property is judged on it too
+            if not desc["opts"].get("_embed"):
+                stats["api_calls"] = stats.get("api_calls", 0) + 1
+                api = api_script(desc, opts)
+                if api != [tuple([type(a).__name__] + list(a)) for a in raw]:
+                    stats["api_differs"] = stats.get("api_differs", 0) + 1
+                    if isinstance(api, str):
+                        found.append(("C01", "main.diff_trees raised %s where Differ.match() + Differ.diff() returns a script" % api))
+                    else:
+                        from xmldiff import actions as A
+                        acts = [getattr(A, a[0])(*a[1:]) for a in api]
+                        nsa = [a for a in acts if type(a).__name__ in ("InsertNamespace", "DeleteNamespace")]
+                        L2, R2 = etree.fromstring(desc["left"]), etree.fromstring(desc["right"])
+                        found += [(p_, "[main.diff_trees] " + m) for p_, m in oracles.check_script(L2, R2, acts, ign) + oracles.check_patch(L2, R2, acts, ign)]
+                        if same and len(acts) > len(nsa):
+                            found.append(("C03", "[main.diff_trees] non-empty script for equal documents: %r" % (acts,)))
+                        if not same_ign and not acts:
+                            found.append(("C03", "[main.diff_trees] empty script for different documents"))
+                        if ign and same_ign and len(acts) > len(nsa):
+                            found.append(("C13", "[main.diff_trees] documents differ only in ignored attributes but the script is %r" % (acts,)))
         # C07 on the matching (evaluated before the script was generated)
         found += c["c07"]
         # a similarity-oracle law that the theorems assume fails on a value CPython produced
         for msg in c.get("laws", []):
             found.append((focus, "premise of the theorems (similarity-oracle law) fails: " + msg))
+        if focus == "C17":
+            # an action that cannot be applied as documented does not "change the document when applied" either
+            found += [("C17", "not applicable, hence without effect: " + m) for p_, m in found if p_ == "C05"]
+        if focus == "C13" and ign:
+            # third clause of C13: applying the script yields the right document up to the ignored attributes
+            found += [("C13", "with ignored_attrs=%r: %s" % (list(ign), m)) for p_, m in found if p_ in ("C01", "C05")]
+            found += shared_options_oracle(desc, L, R, opts, ign)
         for prop, msg in found:
             if prop == focus:
                 viols.append({"what": msg, "replay": {"left": desc["left"], "right": desc["right"], "opts": desc["opts"],
@@ -270,6 +351,37 @@ def evaluate(built, focus):
     stats["action_histogram"] = hist
     viols.sort(key=lambda v: len(v["replay"]["left"]) + len(v["replay"]["right"]))
     return viols, stats
+
+
+def api_script(desc, opts):
+    from xmldiff import main
+    o = {k: v for k, v in opts.items() if not k.startswith("_")}
+    try:
+        return [tuple([type(a).__name__] + list(a)) for a in
+                main.diff_trees(etree.fromstring(desc["left"]), etree.fromstring(desc["right"]), diff_options=o)]
+    except Exception as ex:  # noqa
+        return "exc:" + type(ex).__name__
+
+
+def shared_options_oracle(desc, L, R, opts, ign):
+    """main.diff_trees called twice with ONE options dict (as an API user comparing several documents does): the dict
+    is not changed and the second script still ignores the ignored attributes."""
+    from xmldiff import main
+    out = []
+    shared = {k: v for k, v in opts.items() if not k.startswith("_")}
+    before = json.dumps(shared, sort_keys=True, default=list)
+    try:
+        main.diff_trees(etree.fromstring(desc["left"]), etree.fromstring(desc["right"]), diff_options=shared)
+        s2 = main.diff_trees(etree.fromstring(desc["left"]), etree.fromstring(desc["right"]), diff_options=shared)
+    except Exception:  # noqa   (failures of a single call are reported by the other oracles)
+        return out
+    if json.dumps(shared, sort_keys=True, default=list) != before:
+        out.append(("C13", "main.diff_trees changed the caller's diff_options dict: %s -> %r" % (before, shared)))
+    for a in s2:
+        for f in ("name", "oldname", "newname"):
+            if getattr(a, f, None) in ign:
+                out.append(("C13", "second diff_trees call with the same diff_options dict: action %r names an ignored attribute" % (a,)))
+    return out
 
 
 def _ns_consistent(L, R):
